@@ -250,6 +250,8 @@ void ezc3d::ParametersNS::Parameters::write(std::fstream &f) const
 
     // Move the cursor to a beginning of a block
     std::streampos actualPos(f.tellg());
+    if (actualPos == std::streampos(-1)) // The position could not be obtained, so the section cannot be aligned
+        f.setstate(std::ios::failbit);
     for (int i=0; i<512 - static_cast<int>(actualPos) % 512; ++i){
         f.write(reinterpret_cast<const char*>(&blankValue), ezc3d::BYTE);
     }
